@@ -45,6 +45,43 @@ def opsC18 : List (String × Handler) := [
         | none => "bad-op"
       | _, _ => "bad-op"
     | _ => "bad-op"),
+  -- mk.prune2 <table> <paths1> <paths2>: one prover, two cursors (each with its own prune set); the second proof
+  ("mk.prune2", fun
+    | [t, ps1, ps2] => match parseTable t, parsePaths ps1, parsePaths ps2 with
+      | some tb, some p1, some p2 => match Table.root tb with
+        | some root =>
+          let bad := fun (ps : List (List Nat)) => (ps.map (rowAt tb 0)).any (·.isNone)
+          let run := fun (ps : List (List Nat)) =>
+            if bad ps then
+              match Cell.info sha256 root with
+              | .ok _ => (Outcome.panic "index out of range (Cursor.Ref)" : Outcome Cell)
+              | .err e => .err e
+              | .panic p => .panic p
+            else createProof sha256 (fun p => ps.contains p) root
+          match run p1 with
+          | .ok _ => outcomeCell (run p2)
+          | .err _ => "err"
+          | .panic _ => "panic"
+        | none => "bad-op"
+      | _, _, _ => "bad-op"
+    | _ => "bad-op"),
+  -- mk.prove2 <key1> <key2> <value width> <table>: one prover, a proof for key1 (result ignored), then for key2
+  ("mk.prove2", fun
+    | [k1, k2, vb, t] =>
+      let kb := fun (k : String) => if k == "-" then some [] else Bits.ofBinString? k
+      match kb k1, kb k2, vb.toNat?, parseTable t with
+      | some key1, some key2, some vbits, some tb => match Table.root tb with
+        | some root =>
+          match proveKey sha256 vbits root key1 with
+          | .panic _ => "panic"
+          | _ =>
+            match proveKey sha256 vbits root key2 with
+            | .ok (v, c) => "ok " ++ (if v.isEmpty then "-" else Bits.toBinString v) ++ " " ++ canonString (toTable c) [0]
+            | .err _ => "err"
+            | .panic _ => "panic"
+        | none => "bad-op"
+      | _, _, _, _ => "bad-op"
+    | _ => "bad-op"),
   -- mk.prove <key bits> <value width> <table> -> "ok <value bits> <canonical table of the proof> 0" | err | panic
   ("mk.prove", fun
     | [k, vb, t] => match (if k == "-" then some [] else Bits.ofBinString? k), vb.toNat?, parseTable t with
